@@ -27,4 +27,6 @@ pub fn usize_binary_search(s: &[usize], x: &usize) -> (r: Result<usize, usize>)
 pub fn usize_partition_point_lt(s: &[usize], bound: usize) -> (r: usize)
     ensures nondecreasing(s@) ==> r <= s@.len() && (forall|k: int| 0 <= k < r ==> s@[k] < bound) && (forall|k: int| r <= k < s@.len() ==> s@[k] >= bound)
 { s.partition_point(|&v| v < bound) }
+pub assume_specification [i8::signum] (x: i8) -> (r: i8)
+    ensures r == (if x > 0 { 1i8 } else if x < 0 { -1i8 } else { 0i8 });
 // ===== end prelude/std_assumed.rs =====
